@@ -120,11 +120,10 @@ func verifVLAEqual(tag string, got *VLA, want *VLA) {
 		for j := range w.TargetBitrates {
 			verifAssert(tag+".kbps", g.TargetBitrates[j] == w.TargetBitrates[j])
 		}
-		if want.HasResolutionAndFramerate {
-			verifAssert(tag+".w", g.Width == w.Width)
-			verifAssert(tag+".h", g.Height == w.Height)
-			verifAssert(tag+".fps", g.Framerate == w.Framerate)
-		}
+		// without resolution records these are zero in the expected value
+		verifAssert(tag+".w", g.Width == w.Width)
+		verifAssert(tag+".h", g.Height == w.Height)
+		verifAssert(tag+".fps", g.Framerate == w.Framerate)
 	}
 }
 
@@ -152,8 +151,14 @@ func verifC19RT(v VLA, ls []verifVLALayer) {
 	verifVLAEqual("C19.fresh", &fresh, &v)
 	// a receiver used for an earlier decode
 	used := VLA{RTPStreamID: verifInt("pre.rid"), RTPStreamCount: verifInt("pre.count"), HasResolutionAndFramerate: verifBool("pre.hasres")}
-	if verifCase("pre.layers", 0, 1) == 1 {
-		used.ActiveSpatialLayer = []SpatialLayer{{RTPStreamID: 3, SpatialID: 3, TargetBitrates: []int{verifInt("pre.kbps")}, Width: 7, Height: 7, Framerate: 7}}
+	if pre := verifCase("pre.layers", 0, 2); pre > 0 {
+		// layers of the earlier decode, every field set; the second variant leaves spare capacity behind
+		used.ActiveSpatialLayer = make([]SpatialLayer, pre, 2*pre)
+		for i := range used.ActiveSpatialLayer {
+			tb := make([]int, 1, 4)
+			tb[0] = verifInt("pre.kbps")
+			used.ActiveSpatialLayer[i] = SpatialLayer{RTPStreamID: 3, SpatialID: 3 - i, TargetBitrates: tb, Width: 7, Height: 7, Framerate: 7}
+		}
 	}
 	n, err = used.Unmarshal(want)
 	verifAssert("C19.reuse-noerr", err == nil)
